@@ -13,8 +13,9 @@
 //@ harness: name=c05_pending_request_decision_table props=C05,C07,C19 cap=1800 cost=200 sym="sender me/other; with/without call id (0..=9); call addressed to me/other" bound="palette above; empty call_results"
 //@ harness: name=c19_handle_remote_call props=C19 cap=900 cost=30 sym="target peer chosen from {other, third}; next_peer_pks initially empty or holding one entry" bound="-"
 //@ harness: name=c06_call_request_ids_increase props=C06 cap=300 cost=10 sym="last_call_request_id: any u32 < u32::MAX - 1" bound="two consecutive ids"
-//@ harness: name=c01_executed_state_with_unresolved_args props=C01 panicfree=1 cap=900 cost=60 sym="Executed(Scalar|Stream|Unused) chosen symbolically; any generation" bound="argument hash = None"
+//@ harness: name=c01_executed_state_with_unresolved_args props=C01 panicfree=1 tier=thorough core=0 cap=3000 cost=60 sym="any stream generation; Executed(Scalar), Executed(Stream), Executed(Unused) in turn" bound="argument hash = None; context fully uninitialised"
 //@ harness: name=c06_foreign_request_never_takes_local_result props=C06,C05 cap=1800 cost=300 sym="request of ANOTHER peer carrying any one-digit call id; call addressed to me / other" bound="the call-result lookup itself is the forbidden step"
+//@ harness: name=c01_missing_argument_hash_is_an_error props=C01,C14 trivial=1 cap=300 cost=10 sym="none: the helper every stored-result arm of handle_prev_state goes through" bound="-"
 //@ harness: name=c05_leaf_vacuity props=C05 expect=fail cap=1800 cost=200 sym="as decision table" bound="same"
 
 use super::*;
@@ -122,6 +123,22 @@ fn c05_leaf_vacuity() {
 /// state written by another peer (ids are per peer, so they collide) must never even look at this peer's
 /// call results: the lookup is the forbidden step (stubbed to a failing check; a real hashbrown lookup on a
 /// filled map does not finish under CBMC).
+/// with unresolved arguments nothing of a stored result may be looked up or bound
+fn populate_stub<'i>(
+    value: ValueRef,
+    _argument_hash: &str,
+    tetraplet: RcSecurityTetraplet,
+    _trace_pos: air_interpreter_data::TracePos,
+    _value_source: ValueSource,
+    _output: &CallOutputValue<'i>,
+    _exec_ctx: &mut ExecutionCtx<'i>,
+) -> ExecutionResult<()> {
+    kani::assert(false, "C01/C14: a stored result must not be applied to a call whose arguments are unresolved");
+    std::mem::forget((value, tetraplet));
+    kani::assume(false);
+    Ok(())
+}
+
 fn call_id_to_string_stub<T: std::fmt::Display + ?Sized>(_id: &T) -> String {
     // the only u32 -> String conversion in handle_prev_state is the call-result key of the own-request arm
     kani::assert(false, "C06: a request recorded by another peer must not consume (or look up) a result of this peer's host");
@@ -209,32 +226,53 @@ fn c06_call_request_ids_increase() {
 
 #[kani::proof]
 #[kani::unwind(6)]
+#[kani::stub(crate::execution_step::instructions::call::call_result_setter::populate_context_from_data, populate_stub)]
 #[kani::stub(std::hash::RandomState::new, random_state_stub)]
 #[kani::stub(alloc::fmt::format, fmt_stub)]
 #[kani::stub(std::thread::current::current, thread_current_stub)]
 #[kani::stub(std::thread::park, thread_park_stub)]
 #[kani::stub(std::thread::Thread::unpark, thread_unpark_stub)]
 fn c01_executed_state_with_unresolved_args() {
-    let mut u = partial_ctx("me", 0);
+    // nothing of the context may be touched before the missing argument hash is reported: fully uninitialised
+    let mut u = MaybeUninit::<ExecutionCtx<'static>>::uninit();
     let ctx = unsafe { &mut *u.as_mut_ptr() };
     let mut trace = TraceHandler::default();
-    let kind: u8 = kani::any();
-    kani::assume(kind < 3);
-    let g: u32 = kani::any();
-    let value = match kind {
-        0 => ValueRef::Scalar(CID::new("a")),
-        1 => ValueRef::Stream {
-            cid: CID::new("a"),
-            generation: (g as usize).into(),
-        },
-        _ => ValueRef::Unused(CID::new("a")),
-    };
-    let met = MetCallResult::new(CallResult::Executed(value), 0.into(), ValueSource::CurrentData);
     let tetraplet = tetraplet_for("other");
-    let r = handle_prev_state(met, &tetraplet, None, &CallOutputValue::None, ctx, &mut trace);
-    kani::assert(r.is_err(), "C01: a result for a call with unresolved arguments is rejected, not unwrapped");
+    let g: u32 = kani::any();
+    let mut kind = 0u8;
+    let mut r = Ok(StateDescriptor::executed());
+    while kind < 3 {
+        let value = match kind {
+            0 => ValueRef::Scalar(CID::new("a")),
+            1 => ValueRef::Stream {
+                cid: CID::new("a"),
+                generation: (g as usize).into(),
+            },
+            _ => ValueRef::Unused(CID::new("a")),
+        };
+        let met = MetCallResult::new(CallResult::Executed(value), 0.into(), ValueSource::CurrentData);
+        std::mem::forget(r);
+        r = handle_prev_state(met, &tetraplet, None, &CallOutputValue::None, ctx, &mut trace);
+        kani::assert(r.is_err(), "C01: a result for a call with unresolved arguments is rejected, not unwrapped");
+        kind += 1;
+    }
     kani::assert(trace.as_result_trace().len() == 0, "C14: nothing accepted into the trace");
-    kani::cover!(kind == 1, "stream result");
+    kani::cover!(g > 0, "non-zero generation");
     std::mem::forget((r, tetraplet, trace));
     std::mem::forget(u);
+}
+
+#[kani::proof]
+#[kani::unwind(4)]
+#[kani::stub(alloc::fmt::format, fmt_stub)]
+fn c01_missing_argument_hash_is_an_error() {
+    let r = require_argument_hash(None);
+    kani::assert(matches!(&r, Err(UncatchableError::InstructionParametersMismatch { .. })), "C01: an absent argument hash is reported as an error, never unwrapped");
+    let h: Rc<str> = "h".into();
+    let r2 = require_argument_hash(Some(&h));
+    kani::assert(matches!(&r2, Ok(x) if Rc::ptr_eq(x, &h)), "C14: a present argument hash is passed through unchanged");
+    kani::cover!(true, "end reached");
+    std::mem::forget(r2);
+    std::mem::forget(r);
+    std::mem::forget(h);
 }
